@@ -189,6 +189,16 @@ struct World
             x(j) = -44.0 - 16.0 * r.unit();
             if (RunCtx *c = cur_ctx()) c->count("probe.extreme_time_variable");
         }
+        if (mode == 6 && std::is_same<TM, SplineTrajectory::IdentityTimeMap>::value)
+        {
+            // dyadic durations from a fixed multiset, permuted by the seed: different interior knots, the same
+            // start and - bit for bit - the same end time
+            std::vector<double> ds((size_t)L.N);
+            for (int i = 0; i < L.N; ++i) ds[(size_t)i] = 0.25 * (double)(2 + (i % 4));
+            for (int i = L.N - 1; i > 0; --i) std::swap(ds[(size_t)i], ds[(size_t)r.below((uint64_t)i + 1)]);
+            for (int i = 0; i < L.N; ++i) x(i) = ds[(size_t)i];
+            if (RunCtx *c = cur_ctx()) c->count("probe.same_total_other_knots");
+        }
         if (mode == 5)
         {
             // one segment far below the millisecond the validity rule asks of the *reference* (decision values are free)
@@ -363,7 +373,9 @@ struct World
     }
 
     // --------------------------------------------- C07: finite differences --
-    void check_fd(const Model &m, const Eigen::VectorXd &x, bool three, const EvalResult &got)
+    // `loose`: decision vectors with an extreme (sub-millisecond) duration are badly conditioned; the comparison is then
+    // only asked to see errors of the order of the gradient itself (100 times the usual tolerance)
+    void check_fd(const Model &m, const Eigen::VectorXd &x, bool three, const EvalResult &got, bool loose = false)
     {
         std::unique_ptr<Opt> t = make_twin(m);
         WS w;
@@ -409,7 +421,7 @@ struct World
         for (int k = 0; k < n; ++k)
         {
             long double err = fabsl((long double)got.grad(k) - fd[k]);
-            long double tol = 2e-5L * (fabsl(fd[k]) + 0.1L * gmax) + 4e3L * (long double)DBL_EPSILON * cabs / step[k];
+            long double tol = (loose ? 2e-3L : 2e-5L) * (fabsl(fd[k]) + 0.1L * gmax) + 4e3L * (long double)DBL_EPSILON * cabs / step[k];
             double ratio = (double)(err / tol);
             if (ratio > worst) { worst = ratio; worst_k = k; }
             if (err > tol && std::getenv("STSIM_DEBUG_MARGIN"))
